@@ -2,9 +2,11 @@
 //   simh3 run <C16|C17|C18> --seed S --runs N --workers W --worker I --tier T
 //   simh3 replay <file>        exit 1 + VIOLATION line iff the violation reproduces
 //   simh3 minimize <in> <out>
+#include <time.h>
 #include <unistd.h>
 
 #include "runner.h"
+#include "statics.h"
 #ifdef SIM_COV
 #include "vsched.h"
 #include "trap.h"
@@ -50,9 +52,12 @@ static int cmdRun(int argc, char **argv) {
     TierCfg cfg = tierCfg(prop, tier);
     for (int64_t i = first + worker; i < first + runs; i += workers) {
         if (i <= after) continue;
+        staticsRestore();  // every run starts from the pristine image of library statics
         uint64_t rs = runSeedOf(seed, propCode(prop), (uint64_t)i);
         cfg.wantSample = sampleEvery > 0 && (i % sampleEvery) == 0;
         JP line;
+        struct timespec t0, t1;
+        clock_gettime(CLOCK_MONOTONIC, &t0);
         if (prop == "C17")
             line = runC17(rs, i, cfg);
         else if (prop == "C16")
@@ -65,6 +70,9 @@ static int cmdRun(int argc, char **argv) {
             fprintf(stderr, "unknown property %s in this build\n", prop.c_str());
             return 2;
         }
+        // diagnostics only: never part of the event-log hash or of any verdict
+        clock_gettime(CLOCK_MONOTONIC, &t1);
+        line->set("wall_ms", (int64_t)((t1.tv_sec - t0.tv_sec) * 1000 + (t1.tv_nsec - t0.tv_nsec) / 1000000));
         std::string s = line->dump();
         fputs(s.c_str(), stdout);
         fputc('\n', stdout);
@@ -149,6 +157,7 @@ int main(int argc, char **argv) {
     containInstall();
     symLoad(argv[0]);
     genInitWorld();
+    staticsInit();
 #ifdef SIM_COV
     trapInit(argv[0]);
 #endif
@@ -171,3 +180,16 @@ int main(int argc, char **argv) {
     fprintf(stderr, "unknown command %s\n", cmd.c_str());
     return 2;
 }
+
+#ifdef SIM_DELEGATE_MALLOC
+// sanitizer builds: a report must kill the worker with a recognisable status
+// (the driver re-runs the run alone and reports it with the sanitizer text);
+// leak checking is done by the simulated heap's own bookkeeping, not by LSan.
+extern "C" __attribute__((used)) const char *__asan_default_options() {
+    return "exitcode=77:detect_leaks=0:handle_segv=0:handle_sigbus=0:handle_sigfpe=0:handle_abort=0:"
+           "allocator_may_return_null=1:abort_on_error=0:use_sigaltstack=0";
+}
+extern "C" __attribute__((used)) const char *__ubsan_default_options() {
+    return "halt_on_error=1:exitcode=78:print_stacktrace=1";
+}
+#endif
